@@ -6,6 +6,9 @@ mod threads;
 mod regs;
 mod timer;
 mod tables;
+mod mem;
+mod rt;
+mod cpubus;
 
 use std::io::{self, BufRead, Write};
 use std::sync::atomic::{AtomicU64, Ordering};
@@ -51,6 +54,9 @@ fn main() {
         "regs" => regs::main(),
         "timer" => timer::main(),
         "tables" => tables::main(),
+        "mem" => mem::main(),
+        "rt" => rt::main(),
+        "cpubus" => cpubus::main(),
         _ => {
             eprintln!("usage: vrt <exec|...>");
             std::process::exit(64);
